@@ -408,10 +408,12 @@ def unplaced_reads(n):
 
 NAME_SCHEMES = [['chr1', 'chr2', 'chr3', 'chr4', 'chr5', 'chr6'],
                 ['chr1', 'chr11', 'chr1_alt', 'chr111', 'chr1_random', 'chr'],      # names that are substrings of each other
-                ['1', '11', 'MT', 'X', '10', '0']]
+                ['1', '11', 'MT', 'X', '10', '0'],
+                # legal SAM names with '*', ':', '-', '|', '=' after the first character (GRCh38 HLA alt contigs ...)
+                ['HLA-A*01:01:01:01', 'HLA-B*07:02', 'chr1|alt', 'c=1', 'A-B:1-2', 'chrUn_KI270302v1']]
 
 
-def random_library(rng, method, big=False, n_small=0, unmapped_only=False):
+def random_library(rng, method, big=False, n_small=0, unmapped_only=False, scheme=None):
     """molecules straddling the boundaries of a grid (bin size B, margin F) on 1-3 contigs, trimmed reads of unequal
     length, PCR duplicates with different R2 ends, rejected reads, single-end reads, unplaced reads"""
     B = rng.choice([300, 400, 500])
@@ -421,10 +423,10 @@ def random_library(rng, method, big=False, n_small=0, unmapped_only=False):
         lens = [rng.choice([100000, 130000, 250000]) for _ in range(rng.randint(1, 2))] + \
                [rng.choice([4 * B + 11, 20000, 99999]) for _ in range(n_small)]
         rng.shuffle(lens)
-        names = rng.choice(NAME_SCHEMES)
+        names = NAME_SCHEMES[scheme] if scheme is not None else rng.choice(NAME_SCHEMES)
         contigs = [(names[i], l) for i, l in enumerate(lens)]
     else:
-        names = rng.choice(NAME_SCHEMES)
+        names = NAME_SCHEMES[scheme] if scheme is not None else rng.choice(NAME_SCHEMES)
         ragged = rng.random() < 0.5            # contig lengths that are no multiple of the grid / of the number of bins
         contigs = [(names[i], rng.choice([3, 4, 5]) * B + (rng.choice([1, 2, 3, 5, 7, 37, B // 2]) if ragged else 0))
                    for i in range(nct)]
@@ -546,6 +548,44 @@ def hand_tilings(rng, lib, n):
     return out
 
 
+def ejection_library():
+    """The serial pass looks at its molecule buffer once per check_eject_every + 1 = 10,001 valid fragments; the jobs of a tiling
+    restart that counter.  9,997 filler fragments (100 sites x ~100 PCR duplicates, single-end) + the SHORT duplicate S of molecule M
+    (10 kb behind the last filler) + five single reads T1..T5 650 bp downstream of M's site - the 10,001st valid fragment is T3 -
+    and then the LONG duplicate L of M, whose R2 lies 860 bp downstream and is therefore released after the buffer check.
+    With the shipped cache radius (5,000 bp) M is not ejectable at that moment and serial == tiled."""
+    frags = []
+    sites = [2000 + 560 * i for i in range(100)]
+    n = 0
+    for i, st in enumerate(sites):
+        for d in range(100 if i < 97 else 99):
+            if n < 9997:
+                frags.append({'c': 0, 'lo': st, 'hi': st + 30, 'rev': False, 'l1': 30, 'l2': 0, 'valid': True, 'umi': 'ACG', 'cell': 'cellA'})
+                n += 1
+    s0 = 70000
+    frags.append({'c': 0, 'lo': s0, 'hi': s0 + 100, 'rev': False, 'l1': 40, 'l2': 40, 'valid': True, 'umi': 'AAA', 'cell': 'cellB'})   # S
+    for j in range(5):
+        frags.append({'c': 0, 'lo': s0 + 650 + 5 * j, 'hi': s0 + 690 + 5 * j, 'rev': False, 'l1': 40, 'l2': 0, 'valid': True, 'umi': 'CCC',
+                      'cell': 'cellB'})                                                                                             # T1..T5
+    frags.append({'c': 0, 'lo': s0, 'hi': s0 + 900, 'rev': False, 'l1': 40, 'l2': 40, 'valid': True, 'umi': 'AAA', 'cell': 'cellB'})   # L
+    return {'B': 20000, 'F': 1000, 'contigs': [('chr1', 80000)], 'frags': frags, 'nun': 0, 'maxext': 900, 'pg': False}
+
+
+def ejection_event(btm, tagging, tmp, tid):
+    lib = ejection_library()
+    bam = os.path.join(tmp, 'libJ.bam')
+    write_library(bam, lib['contigs'], 'nla', lib['frags'], None)
+    ser = serial_cli(btm, bam, os.path.join(tmp, 'serJ.bam'), 'nla', lib['contigs'])
+    jobs = [[(-1, None, None, None, None)]] + [[(0, a, a + 20000, max(0, a - 1000), min(80000, a + 21000))] for a in range(0, 80000, 20000)]
+    jr = run_tasks(tagging, bam, 'nla', lib['contigs'], jobs)
+    for pth in os.listdir(tmp):
+        if pth.startswith(('libJ.', 'serJ.')):
+            os.remove(os.path.join(tmp, pth))
+    return {'ev': 'run', 'tid': tid, 'mode': 'tasks', 'method': 'nla', 'contigs': [80000], 'serial': ser, 'jobs': jr,
+            'plan': [j['tasks'] for j in jr], 'merged': [], 'raised': '',
+            'case': {'directed': 'ejection', 'method': 'nla', 'jobs': [[task_rec(t) for t in j] for j in jobs]}}
+
+
 def api_options(rng, lib, method, k, npool):
     """parameters of one region-API run (all JSON-able: 0 stands for None, '' for no contig)"""
     seg = rng.choice([lib['B'], lib['B'], lib['B'], lib['B'], lib['B'] // 2 + 7, 2 * lib['B'], 10 * lib['B']])
@@ -619,7 +659,7 @@ def main():
         nlib, ntil, napi, npool, ncpp = (24, 6, 16, 3, 6) if tier == 'quick' else (250, 16, 100, 20, 36)
         for k in range(nlib):
             method = 'nla' if k % 3 != 2 else 'chic'
-            lib = random_library(rng, method)
+            lib = random_library(rng, method, scheme=(k + 3) % len(NAME_SCHEMES))
             lib['pg'] = k % 3 == 1
             bam = os.path.join(tmp, 'lib%d.bam' % k)
             write_library(bam, lib['contigs'], method, lib['frags'], unplaced_reads(lib['nun']), lib['pg'])
@@ -638,6 +678,9 @@ def main():
             for p in os.listdir(tmp):
                 if p.startswith(('lib%d.' % k, 'ser%d.' % k, 'par%d.' % k)):
                     os.remove(os.path.join(tmp, p))
+        # directed: more fragments than check_eject_every in the serial stream
+        tid += 1
+        emit(ejection_event(btm, tagging, tmp, tid))
         # a library without a single read: no job writes a file, merge_bams gets the header-only file alone
         lib = {'B': 300, 'F': 60, 'contigs': [('chr1', 1200), ('chr2', 900)], 'frags': [], 'nun': 0, 'maxext': 60, 'pg': False}
         bam = os.path.join(tmp, 'libE.bam')
@@ -648,7 +691,8 @@ def main():
                                                        'order': 1, 'bed': False, 'maxtime': 0, 'variant': '', 'vcontig': ''}, tid, 'E'))
         for k in range(ncpp):
             method = 'nla' if k % 2 == 0 else 'chic'
-            lib = random_library(rng, method, big=True, n_small=[1, 0, 2, 1, 3, 0][k % 6], unmapped_only=k % 3 != 2)
+            lib = random_library(rng, method, big=True, n_small=[1, 0, 2, 1, 3, 0][k % 6], unmapped_only=k % 3 != 2,
+                                 scheme=(k + 3) % len(NAME_SCHEMES))
             if lib['nun'] == 0 and k % 2 == 0:
                 lib['nun'] = 2
             bam = os.path.join(tmp, 'big%d.bam' % k)
@@ -695,7 +739,9 @@ def replay_case(case_path, outp):
     with open(case_path) as f:
         case = json.load(f)
     tmp = tempfile.mkdtemp(prefix='c08r_', dir=os.getcwd())
-    if 'scn' in case:
+    if case.get('directed') == 'ejection':
+        ev = ejection_event(btm, tagging, tmp, 1)
+    elif 'scn' in case:
         ev = run_scenario(tagging, case['scn'], tmp, 1)
     else:
         lib, method = case['lib'], case['method']
